@@ -13,7 +13,7 @@ use amq_protocol::protocol::AMQPClass;
 pub struct C09;
 
 fn touches_channel(op: &Op) -> bool {
-    !matches!(op, Op::Yield | Op::Gate(_) | Op::ReadReturns | Op::ReadConfirms | Op::DropReturns | Op::DropConfirms | Op::ForgetConsumer { .. } | Op::Drain { .. } | Op::DropConsumer { .. } | Op::ForeignAck { .. })
+    !matches!(op, Op::Yield | Op::Gate(_) | Op::ReadOld | Op::ReadReturns | Op::ReadConfirms | Op::DropReturns | Op::DropConfirms | Op::ForgetConsumer { .. } | Op::Drain { .. } | Op::DropConsumer { .. } | Op::ForeignAck { .. })
 }
 
 /// scheduler stamp at which the byte at `offset` of the client->server stream was written
